@@ -394,6 +394,40 @@ def run(ctx):
                       % (tables.show_chars(sets_[0]), tables.show_chars(sets_[1]), tables.show_chars(sets_[2]), tables.show_chars(idset)))
     ctx.finish_rule()
 
+    # ------------------------------------------------------------------ R7
+    # a prefix label the parser has taken must be in the symbol table before the parser goes on to the next statement, whatever
+    # follows it (`.orig` and `.break` leave the iteration early): otherwise the statement exists but the debugger cannot name it
+    ctx.rule("C17.R7", "every prefix label taken by the parser is entered into the symbol table before the next statement", floor=1)
+    pf = ctx.fn("lace::parser::AsmParser::parse")
+    ol = [(b, t) for b, t, c in pf.calls() if c == "lace::parser::AsmParser::optional_label"]
+    ctx.need(len(ol) >= 1, "optional_label call in parse()")
+    ins = {b for b, t, c in pf.calls() if c == "lace::symbol::Label::insert"}
+    errb = kit.error_blocks(pf)
+    lps = kit.loops(pf)
+    ctx.need(lps, "the statement loop of parse()")
+    outer = max(lps, key=lambda h: len(lps[h][0]))
+    rets = {b for b in pf.live_blocks() if pf.term(b)["k"] == "return"}
+    for b, t in ol:
+        ctx.instance(1)
+        some = kit.ok_target_of_call(pf, b)
+        ok = some is not None
+        leak = None
+        if ok:
+            # from "a label was taken" to the next iteration (or to a successful return) without an insert
+            reach = pf.reachable(some, avoid=ins | errb | {b})
+            nxt = {x for x in reach if b in pf.succ_map()[x] or outer in pf.succ_map()[x]} if b != outer else {x for x in reach if outer in pf.succ_map()[x]}
+            okret = {x for x in reach & rets}
+            leak = sorted(nxt | okret)
+            ok = not leak
+        ctx.oblig(ok, {"prefix label": "Label::insert on every way to the next statement", "insert sites": len(ins)}, "must-pass-through")
+        if not ok:
+            p = pf.path(some, set(leak), avoid=ins | errb) if some is not None and leak else None
+            ctx.violation("label-not-registered", sp_file_line(t.get("sp")),
+                          "parse() can take a prefix label and move on to the next statement without entering it into the symbol table (path lines %s): "
+                          "the labelled statement is assembled, but the debugger answers Labels::NotFound for its name"
+                          % (pf.path_lines(p) if p else "?"))
+    ctx.finish_rule()
+
 
 def kit_fields(p):
     return [e.get("n") for e in p.get("pr", []) if isinstance(e, dict) and "f" in e]
